@@ -67,8 +67,13 @@ package maintenance
 // otherwise every table of the group is altered (two statements each) and only
 // then the value is recorded; on any failure the record is unchanged, so the
 // next run repeats the group.
+// Tier moves are clamped below by minTTL: at least one minute for every table,
+// and at least one day for tables whose rows are dated by the day column "date"
+// (the index tables: a row dated "today" must not move before the day is over).
 //@ func rotateTables [C19]
 //@   requires fresh-name: !settingUsed[settingName]
+//@   requires minute-clamp: minTTL >= 60000000000
+//@   requires day-clamp-for-date-keyed-tables: insertTimeExpression == "date" ==> minTTL >= 86400000000000
 //@   ghostset settingUsed = upd(settingUsed, settingName, true)
 //@   modifies dbN, dbStmt, dbVer, dbSet, settingUsed
 //@   check no-op: result == nil && old(dbSet)[settingName] == rotateTTLStr ==> dbN == old(dbN) && dbSet == old(dbSet)
